@@ -88,6 +88,7 @@ Candidates(v) ==
   \cup {O1("taked", k) : k \in 0..n}
   \cup {O1("partitioned", p) : p \in 1..MaxExt}
   \cup {O1("chunked", c) : c \in 1..MaxExt}
+  \cup {O1(nm, c) : nm \in {"tiled_q", "tiled_r"}, c \in 1..MaxExt}
   \cup {O1("broadcast", k) : k \in {0, 7}}
   \cup {O1("reindexed", g) : g \in Bases}
   \cup {O2("reindexed", g, h) : g \in Bases, h \in Bases}
@@ -96,7 +97,7 @@ Candidates(v) ==
           s \in UNION {ParenSeqs(v, 1, k) : k \in 0..Min2(Dim(v), ParenArgs)}}
 
 ResultDim(v, o) ==
-  CASE o.op \in {"partitioned", "chunked", "broadcast", "halved"} -> Dim(v) + 1    \* broadcast passes through a (D+1)-dimensional view
+  CASE o.op \in {"partitioned", "chunked", "broadcast", "halved", "tiled_q"} -> Dim(v) + 1    \* broadcast passes through a (D+1)-dimensional view
     [] o.op \in {"front", "back", "index"} -> Dim(v) - 1
     [] OTHER -> Dim(v)
 
